@@ -63,6 +63,7 @@ structure St where
   active : Option Nat := none
   nsoft : Nat := 0                     -- soft constraints visited so far in this pass
   err : Option String := none
+  noref : RandSet := {}                -- statements that reference no field (`_noref_constraint_l`)
   deriving Repr
 
 def owner (sets : List (Option RandSet)) (f : Nat) : Option Nat :=
@@ -130,12 +131,18 @@ def countSoft : Stmt → Nat
   | _ => 0
 
 /-- one top-level statement: enter (no active set), walk, leave (add to the active set) -/
-def processTop (n : Nat) (st : St) (c : Nat × Stmt) : St :=
+def processTop (n : Nat) (st : St) (c : Nat × Stmt) (extra : List Nat := []) : St :=
   let st := { st with active := none }
   let p := st.nsoft + (n + st.nsoft)     -- priority, should the statement itself be a soft constraint
-  let st := (walk c.2 []).foldl (processEv n) st
+  -- `extra`: fields the statement mentions in a position that contributes no term (the left-hand
+  -- side of a membership test in a list that has nothing to offer)
+  let st := (walk c.2 [] ++ extra.map Ev.ref).foldl (processEv n) st
   match st.active with
-  | none => st
+  | none =>
+    -- a statement that references no field is kept for the field-less rand set
+    match c.2 with
+    | .soft e => { st with noref := addSoft st.noref ⟨p, [], e⟩ }
+    | _ => { st with noref := addHard st.noref c }
   | some a =>
     match c.2 with
     | .soft e => { st with sets := modifySet st.sets a fun rs => addSoft rs ⟨p, [], e⟩ }
@@ -151,14 +158,17 @@ def registerDist (st : St) (f d : Nat) : St :=
 
 /-- all enabled blocks of the call, flattened to their top-level statements in visit order;
     `marks` = (index of the last statement of a rewritten dist, its field, its id) -/
-def build (tops : List Stmt) (marks : List (Nat × Nat × Nat) := []) : St :=
+def build (tops : List Stmt) (marks : List (Nat × Nat × Nat) := []) (extra : List (Nat × List Nat) := []) : St :=
   let n := (tops.map countSoft).sum
   let idd := (List.range tops.length).zip tops
   idd.foldl (fun st c =>
-    let st := processTop n st c
+    let st := processTop n st c ((extra.filter fun x => x.1 == c.1).flatMap (·.2))
     (marks.filter fun m => m.1 == c.1).foldl (fun s m => registerDist s m.2.1 m.2.2) st) {}
 
-def randSets (st : St) : List RandSet := st.sets.filterMap id
+/-- the rand sets of the call in solve order; statements that reference no field form a
+    field-less rand set solved last, so that an unsatisfiable one fails the call -/
+def randSets (st : St) : List RandSet :=
+  st.sets.filterMap id ++ (if st.noref.hard.isEmpty && st.noref.soft.isEmpty then [] else [st.noref])
 
 /-- fields no statement references, in declaration order -/
 def unconstrained (allFields : List Nat) (st : St) : List Nat :=
